@@ -1204,3 +1204,70 @@ def rule_lockscope(ctx):
                             'that synchronises with them deadlocks' % why)
     r.check_floor()
     return r
+
+
+def _must_forward(f, m, depth=0, seen=()):
+    """(ok, offending return block): does every normal path through body m reach a call of a dyn chunk callback (directly, or through
+    a crate-local function / closure that itself always does), or record a pending close (store `true` into a captured bool)?"""
+    stops = set()
+    for pt, t, kind, ops in callback_calls(m):
+        if kind == 'chunk':
+            stops.add(pt[0])
+    for pt, s in m.points():
+        if s['k'] == 'assign' and s['p']['pr'] and s['p'].get('ty') == 'bool' and s['r']['k'] == 'use' \
+                and s['r']['o']['k'] == 'const' and s['r']['o'].get('bool') is True:
+            stops.add(pt[0])
+    if depth < 3:
+        for pt, t in m.calls():
+            c = t.get('callee')
+            if not c:
+                continue
+            hb = f.body(c.get('resolved') or c['path'])
+            if hb is None and c['name'] in ('call_mut', 'call', 'call_once') and t['args']:
+                # a call of a local closure value
+                for x in walk(m.expr_of_operand(t['args'][0])):
+                    if x[0] == 'agg' and x[1] == 'closure':
+                        hb = f.body(x[2])
+            if hb is not None and hb.key not in seen and hb.key != m.key:
+                ok, _ = _must_forward(f, hb, depth + 1, seen + (m.key,))
+                if ok:
+                    stops.add(pt[0])
+    reach = m.reachable(0, blocked=stops)
+    bad = [bb for bb in m.return_blocks() if bb in reach]
+    return (not bad), (bad[0] if bad else None)
+
+
+def rule_forward_all(ctx):
+    """ConcatSource never swallows a child's chunk notification"""
+    f = ctx.facts()
+    r = RuleResult('FORWARD-ALL', 'ConcatSource hands every chunk notification of a child on to its own consumer (translated), or records '
+                                  'that a close is pending: no path through its chunk handler returns without either — in particular an '
+                                  'unmapped notification (the position where a child stops attributing) is not dropped in final-source '
+                                  'mode, where only the text may be omitted')
+    r.floor = 1
+    cc = anchors.adt_by_name(f, 'ConcatSource')
+    st = anchors.trait_path(f, 'StreamChunks')
+    roots = [b for b in f.body_list if b.promoted is None and b.d['kind'] != 'Closure' and b.d.get('impl_adt') == cc['path']
+             and b.d.get('impl_trait') == st]
+    if len(roots) != 1:
+        raise anchors.AnchorMissing('StreamChunks impl of ConcatSource')
+    root = roots[0]
+    handlers = [m for m in group_of(f, root) if m.d['kind'] == 'Closure' and closure_kind(m) == 'chunk']
+    if not handlers:
+        # the handler may live in a helper the root calls
+        for pt, t in root.calls():
+            c = t.get('callee')
+            hb = f.body(c.get('resolved') or c['path']) if c else None
+            if hb is not None and hb.d['kind'] != 'Closure':
+                handlers += [m for m in group_of(f, hb) if m.d['kind'] == 'Closure' and closure_kind(m) == 'chunk']
+    for m in handlers:
+        ok, bad = _must_forward(f, m)
+        r.site('%s: every path forwards the notification or records a pending close' % m.path, m.span(), 'ok' if ok else 'violation')
+        if not ok:
+            t = m.term(bad)
+            r.violation('%s:swallow' % root.path, t.get('s') or m.span(), m.path,
+                        'a path through ConcatSource\'s chunk handler returns without calling the consumer\'s chunk callback and without '
+                        'recording a pending close: the child\'s notification (for instance the unmapped position that ends a mapped '
+                        'segment of a nested source) is dropped, and the following text is attributed to the previous original location')
+    r.check_floor()
+    return r
